@@ -6,7 +6,12 @@
 //! reducer is run and its exported state (`matrix(i)`, `trans(i).forward_mat()/backward_mat()`, `vecs(i)`) is
 //!   (a) checked here with naive dense arithmetic:  d'd' = 0,  F d = d' F,  d B = B d',  F B = 1,  v' = F v,
 //!       H(reduced) = H(original) (library homology, PID rings only);
-//!   (b) sent to the Lean driver: verified checker `C08.check` + independent Lean homology of both complexes.
+//!   (b) sent to the Lean driver: verified checker `C08.check` + independent Lean homology of both complexes
+//!       (`red` / `redn` lines; the expected verdict of a genuine line is always `ok`; deliberately corrupted copies
+//!       of the data are sent as a self-test of the checker, with the naive oracle's verdict as expected reply).
+//! Variations: `d_deg = -1` and the cohomological re-indexing `d_deg = +1`; transfer maps in all / no / some degrees;
+//! `reduced()` and `reduced().reduced()`; Khovanov cube complexes of small links; exhaustive small spaces over Z.
+//! `schur` lines compare `Schur::from_partial_triangular` exactly with its Lean code model (unique outputs).
 use std::sync::Arc;
 
 use yui::poly::{Mono, Poly};
